@@ -233,6 +233,14 @@ class Sim:
                 p.thread.join(2)
 
     # ------------------------------------------------------------------ delays
+    def setup_delay(self, rng_range, *key):
+        """Connection-establishment / subscription-propagation delay."""
+        lo, hi = rng_range
+        if self.link.const:
+            import zlib
+            return lo + zlib.crc32(('|'.join(map(str, (self.seed,) + key))).encode()) % (hi - lo + 1)
+        return self.rng.randrange(lo, hi + 1)
+
     def link_delay(self, src, dst):
         lk = self.link
         if lk.const:
@@ -274,9 +282,10 @@ class Proc:
         self.thread = threading.Thread(target=body, daemon=True, name=f'{name}#{inc}')
 
     def phase(self):
+        """Protocol phase for the kill-point classification: what the filter did last on the network before it blocked."""
         if self.in_process:
             return 'in-process'
-        return self.last_net or 'startup'
+        return f'{self.blocked or "running"}-after-{self.last_net or "startup"}'
 
 
 def _mid(env):
@@ -350,7 +359,7 @@ class SimSocket:
         # peers that were waiting for this address (re)connect after a reconnect interval
         for s in sim.sockets:
             if s.addr == self.addr and not s.bound and not (s.closed or s.dead) and s.typ in (SUB, PUSH):
-                d = sim.rng.randrange(sim.link.conn[0], sim.link.conn[1] + 1) + (sim.rng.randrange(0, 100 * MS) if rebind else 0)   # RECONNECT_IVL phase
+                d = sim.setup_delay(sim.link.conn, 'conn', s.proc.name, s.typ, self.proc.name) + (sim.rng.randrange(0, 100 * MS) if rebind else 0)   # RECONNECT_IVL phase
                 sim.at(sim.now + d, ('connected', s, self, rebind))
 
     def connect(self, addr):
@@ -361,7 +370,7 @@ class SimSocket:
         sim.log.append({'t': sim.now, 'ev': 'connect', 'node': self.proc.name, 'inc': self.proc.inc, 'typ': self.typ, 'addr': self.addr})
         peer = sim.binds.get(self.addr)
         if peer is not None and not (peer.closed or peer.dead):
-            d = sim.rng.randrange(sim.link.conn[0], sim.link.conn[1] + 1)
+            d = sim.setup_delay(sim.link.conn, 'conn', self.proc.name, self.typ, peer.proc.name)
             sim.at(sim.now + d, ('connected', self, peer, False))
 
     def _on_connected(self, peer, is_reconnect):
@@ -372,7 +381,7 @@ class SimSocket:
         if self.typ == SUB:
             peer.subscribers.setdefault(self, set())
             for pfx in self.subs:
-                d = sim.rng.randrange(sim.link.sub[0], sim.link.sub[1] + 1)
+                d = sim.setup_delay(sim.link.sub, 'sub', self.proc.name, peer.proc.name, pfx)
                 sim.at(sim.now + d, ('subscribed', peer, self, pfx, None))
         elif self.typ == PUSH:
             self.peer = peer
@@ -384,7 +393,7 @@ class SimSocket:
         sim = self.sim
         peer = sim.binds.get(self.addr) if self.addr else None
         if peer is not None and self in peer.subscribers:
-            d = sim.rng.randrange(sim.link.sub[0], sim.link.sub[1] + 1)
+            d = sim.setup_delay(sim.link.sub, 'sub', self.proc.name, peer.proc.name, pfx)
             sim.at(sim.now + d, ('subscribed', peer, self, pfx, None))
 
     def _on_subscribed(self, sub, pfx, _):
@@ -541,7 +550,6 @@ class Poller:
             return ready
         p.poll_wait = set(self.socks)
         p.token += 1
-        p.last_net = p.last_net if p.last_net in ('mid-publish',) else ('waiting')
         if timeout is not None:
             sim.at(sim.now + int(timeout * 1e6) + p.debt, ('wake', p, p.token))
             p.debt = 0
